@@ -595,7 +595,9 @@ func vH_C12_string(data []byte, withBuf bool, second []byte) {
 	if len(second) > 0 {
 		// a later call with the same target and the same scratch buffer: when it fails (or reads
 		// null) the target must still hold what the first call left in it
-		snap := []byte(v)
+		// a real copy (the compiler may alias a non-escaping, read-only []byte(v) with v itself)
+		snap := make([]byte, len(v))
+		copy(snap, v)
 		_, rend2, rok2 := vRefReadString(second, nil)
 		_ = rend2
 		_, err2 := DecodeString(second, &v, bufp)
